@@ -2,6 +2,10 @@ package engine
 
 import (
 	"fmt"
+	"os"
+	"runtime"
+	"runtime/debug"
+	"sync"
 	"testing"
 	"testing/synctest"
 
@@ -38,4 +42,30 @@ func Interleave(t *testing.T, c *sched.Chooser, setup func(s *sched.Sched), fina
 		}
 		final(s, ok)
 	})
+}
+
+var gcPointInit sync.Once
+var gcPointOn bool
+var gcPointCalls int
+
+// GCPoint makes garbage collection happen at points the harness decides instead of points the
+// pacer decides (VERIF_GCPOINTS set by the driver): a collection stops the world, the goroutine that
+// was running is put behind the others, and so the pacer's timing-dependent trigger would otherwise
+// leak into the order in which the goroutines of a bubble run. The collector is switched off
+// (a 4 GiB soft limit stays as a safety net) and run explicitly every `every` calls.
+func GCPoint(every int) {
+	gcPointInit.Do(func() {
+		gcPointOn = os.Getenv("VERIF_GCPOINTS") != ""
+		if gcPointOn {
+			debug.SetGCPercent(-1)
+			debug.SetMemoryLimit(4 << 30)
+		}
+	})
+	if !gcPointOn {
+		return
+	}
+	gcPointCalls++
+	if every <= 1 || gcPointCalls%every == 0 {
+		runtime.GC()
+	}
 }
